@@ -141,7 +141,8 @@ def render(case):
     f = case["form"]
     if f == "select":
         proj = " ".join(f"?v{v}" for v in case["proj"]) if case.get("proj") else "*"
-        return f"SELECT {proj} WHERE {body}"
+        mod = (case.get("modifier") + " ") if case.get("modifier") else ""
+        return f"SELECT {mod}{proj} WHERE {body}"
     if f == "ask":
         return f"ASK {body}"
     tpl = " ".join(f"{r_tv(s)} {r_tv(p)} {r_tv(o)} ." for s, p, o in case["template"])
@@ -501,6 +502,10 @@ def strip_in_exists(a):
 def shape_matches(case, alg):
     ref = drop_empty_joins(ref_group(case["q"]))
     got = drop_empty_joins(strip(alg))
+    if case.get("modifier") == "DISTINCT":
+        if got[0] != "Distinct":
+            return False
+        got = got[1]
     if got[0] != "Project":
         return False
     return same_shape(got[1], ref)
@@ -555,11 +560,16 @@ class C04(Suite):
             named = [[1, data(rng.choice([0, 1, 2, 3, 4]))], [2, data(rng.choice([1, 2, 3, 4]))]]
         env["triples"] = default + [t for _, ts in named for t in ts]
         q = self.gen_group(env, rng.choice([1, 2, 2, 3, 3, 4]), top=True)
+        twin = rng.random() < 0.10
+        if twin:
+            q = self.gen_twin(env)
         r = rng.random()
         case = {"ds": is_ds, "default": default, "named": named, "q": q}
-        if r < 0.8:
+        if r < 0.8 or twin:
             case["form"] = "select"
             case["proj"] = None
+            if twin or rng.random() < 0.12:
+                case["modifier"] = "DISTINCT"
             if rng.random() < 0.15:
                 vs = sorted(visible_vars(q))
                 if vs:
@@ -573,6 +583,30 @@ class C04(Suite):
 
     def gen_var(self, env):
         return env["rng"].randint(1, env["nv"])
+
+    def gen_twin(self, env):
+        """a UNION whose two branches consist of the SAME triple patterns, once as one
+        BGP and once as a sequence of joined groups in another order: every solution
+        arrives twice, along evaluation paths that bind its variables in different
+        orders (a DISTINCT over it must collapse them)"""
+        rng = env["rng"]
+        tps = [self.gen_tpat(env) for _ in range(rng.choice([2, 2, 3]))]
+        one = ["group", [["bgp", [list(t) for t in tps]]]]
+        sh = [list(t) for t in tps]
+        rng.shuffle(sh)
+        r = rng.random()
+        if r < 0.4:
+            two = ["group", [["group", [["bgp", [t]]]] for t in sh]]
+        elif r < 0.7:
+            two = ["group", [["bgp", [sh[0]]], ["group", [["bgp", sh[1:]]]]]]
+        else:
+            two = ["group", [["group", [["bgp", sh[1:]]]], ["group", [["bgp", [sh[0]]]]]]]
+        br = [one, two]
+        rng.shuffle(br)
+        els = [["union", br[0], br[1]]]
+        if rng.random() < 0.3:
+            els.insert(rng.choice([0, 1]), ["bgp", [self.gen_tpat(env)]])
+        return ["group", els]
 
     def gen_tpat(self, env, tmpl=False):
         rng = env["rng"]
@@ -739,6 +773,7 @@ class C04(Suite):
 
     def features(self, case, obs):
         f = {"form_" + case["form"]: 1, "dataset": int(case["ds"]), "err": int("err" in obs),
+             "distinct": int(case.get("modifier") == "DISTINCT"),
              "rows": len(obs.get("sel", []))}
 
         def walk(g):
@@ -780,6 +815,8 @@ class C04(Suite):
                 yield dict(case, named=nn)
         if case.get("proj"):
             yield dict(case, proj=None)
+        if case.get("modifier"):
+            yield dict(case, modifier=None)
         # structural shrinking of the query
         for q in shrink_group(case["q"]):
             c = dict(case, q=q)
